@@ -487,6 +487,55 @@ def _valid_slice(b, term, helpers):
     return False
 
 
+def counted_slice(b, t, helpers):
+    """`buf[..n]` / `buf[0..n]` (an Index::index call `t`) where n is the running count: a named local handed by `&mut` to a read
+    helper in this body.  Returns (buffer root local, count local) or None."""
+    if not any(n.endswith("Index::index") for n in callee_names(t)) or len(t["args"]) != 2:
+        return None
+    def root(l):
+        for _ in range(6):
+            defs = [s2 for _, _, s2 in b.stmts() if s2["k"] == "assign" and s2["place"]["l"] == l and not s2["place"]["p"]]
+            if len(defs) != 1:
+                return l
+            rv = defs[0]["rv"]
+            if rv["k"] == "use" and op_local(rv["op"]) is not None and not (op_place(rv["op"]) or {}).get("p"):
+                l = op_local(rv["op"])
+            elif rv["k"] == "ref" and rv["place"]["p"] in ([], ["*"]):
+                l = rv["place"]["l"]
+            else:
+                return l
+        return l
+    rl = op_local(t["args"][1])
+    if rl is None:
+        return None
+    rdefs = [s2 for _, _, s2 in b.stmts() if s2["k"] == "assign" and s2["place"]["l"] == rl and s2["rv"]["k"] == "agg"]
+    if len(rdefs) != 1 or not str(rdefs[0]["rv"].get("adt_name", "")).startswith("core::ops::range::Range") or not rdefs[0]["rv"]["ops"]:
+        return None
+    rv = rdefs[0]["rv"]
+    if rv["adt_name"].endswith("::Range") and not (op_const(rv["ops"][0]) or {}).get("int") == 0:
+        return None
+    if rv["adt_name"].endswith(("RangeFrom", "RangeFull")):
+        return None
+    el = op_local(rv["ops"][-1])
+    if el is None:
+        return None
+    cnt = root(el)
+    buf = root(op_local(t["args"][0])) if op_local(t["args"][0]) is not None else None
+    for bb, tc in b.calls():
+        if any(n in helpers for n in callee_names(tc)):
+            passed = set()
+            for a in tc["args"]:
+                la = op_local(a)
+                if la is None:
+                    continue
+                for _, _, s2 in b.stmts():
+                    if s2["k"] == "assign" and s2["place"]["l"] == la and s2["rv"]["k"] == "ref" and s2["rv"]["mut"]:
+                        passed.add(root(s2["rv"]["place"]["l"]) if not [e for e in s2["rv"]["place"]["p"] if e != "*"] else None)
+            if cnt in passed and b.locals[cnt]["name"]:
+                return buf, cnt
+    return None
+
+
 def valid_prefix_rule(rep, prog, cfg, rule="C02.valid-prefix", which=("blocking/connect", "blocking/receive", "async/connect", "async/receive")):
     """A flavour that reads through a slice-based read (`Read::read(&mut buf[n..])`) keeps a zero-padded buffer whose
     length is not the number of bytes received.  There the parser may only be offered the valid prefix: the slice the
@@ -526,6 +575,25 @@ def valid_prefix_rule(rep, prog, cfg, rule="C02.valid-prefix", which=("blocking/
             al = op_local(arg)
             term = terms.term_of_local(b, al, depth=12) if al is not None else None
             from_helper = term is not None and _valid_slice(b, term, helpers)
+            if not from_helper and al is not None:
+                # `&buf[..total]` with the running count the helper maintains
+                cur = al
+                for _ in range(4):
+                    cdefs = [tc for _, tc in b.calls() if tc["dest"]["l"] == cur and not tc["dest"]["p"]]
+                    sdefs = [s2 for _, _, s2 in b.stmts() if s2["k"] == "assign" and s2["place"]["l"] == cur and not s2["place"]["p"]]
+                    if len(cdefs) == 1 and not sdefs:
+                        if counted_slice(b, cdefs[0], helpers) is not None:
+                            from_helper = True
+                        elif any(n.endswith("Deref::deref") for n in callee_names(cdefs[0])) and cdefs[0]["args"]:
+                            cur = op_local(cdefs[0]["args"][0])
+                            continue
+                        break
+                    if len(sdefs) == 1 and not cdefs and sdefs[0]["rv"]["k"] in ("ref", "use"):
+                        pl = sdefs[0]["rv"]["place"] if sdefs[0]["rv"]["k"] == "ref" else op_place(sdefs[0]["rv"]["op"])
+                        if pl is not None and pl["p"] in ([], ["*"]):
+                            cur = pl["l"]
+                            continue
+                    break
             split_ok = False
             if not from_helper and al is not None:
                 f = ref_field_of_local(b, al)
